@@ -31,14 +31,18 @@ class _NpProxy:
     def __getattr__(self, name):
         return getattr(self._real, name)
 
-    def arange(self, start, stop, step, **kw):
+    def arange(self, *a, **kw):
+        # a size guard only (whatever calling convention the implementation uses: arange(n), arange(a, b), arange(a, b, step))
+        start, stop, step = (0, a[0], 1) if len(a) == 1 else (a[0], a[1], 1) if len(a) == 2 else (a[0], a[1], a[2]) if len(a) >= 3 else (kw.get("start", 0), kw.get("stop", 0), kw.get("step", 1))
         try:
             n = (float(stop) - float(start)) / float(step)
         except ZeroDivisionError:
             n = float("inf")
+        except (TypeError, ValueError):
+            n = 0.0
         if not (n == n) or n > HARD_CAP:
             raise GridTooLarge(f"arange({start},{stop},{step}) ~ {n} elements")
-        return self._real.arange(start, stop, step, **kw)
+        return self._real.arange(*a, **kw)
 
 
 def _install_proxy():
